@@ -6,9 +6,9 @@ Judge (Lean): strict invariant, no stub, leaves = minimal trap spaces, depth = l
 from __future__ import annotations
 
 import common
-from plain import run_plain_history, shrink_history
+from plain import gen_ops, run_plain_history, shrink_history
 
-RULE = ("fresh diagram + unrestricted expand_bfs or expand_dfs over G-expr/G-tt/G-compose networks with inputs, constants, "
+RULE = ("fresh diagram (40%: after a random plain prefix history incl. cache-touching queries) + unrestricted expand_bfs or expand_dfs over G-expr/G-tt/G-compose networks with inputs, constants, "
         "self-loops, non-monotonic functions (n<=6 quick, <=7 thorough); non-trivial = at least 3 nodes and one of "
         "{input, constant, edge with two motifs, node with two parents}; distinct by network hash")
 ASSUMPTIONS = [
@@ -25,7 +25,8 @@ def gen_case(rng, tier, k):
     nmax = 6 if tier == "quick" else 7
     bnet = common.g_mixed(rng, nmax=nmax, p_core=0.25)
     op = ["bfs", 0, None, None] if rng.random() < 0.5 else ["dfs", 0, None, None]
-    return {"bnet": bnet, "max_motifs": 100000, "ops": [op], "final_full": True,
+    prefix = gen_ops(rng, rng.randint(1, 4), allow_unmodelled=True) if rng.random() < 0.4 else []
+    return {"bnet": bnet, "max_motifs": 100000, "ops": prefix + [op], "final_full": True,
             "judge_leaves_after": ["bfs", "dfs"], "judge_contract": True}
 
 
